@@ -25,6 +25,8 @@ VARIANTS = {
     "ndebug": (["INCLUDES=-DNDEBUG"], ["-DNDEBUG"]),
     # the default build, made in a tree in which all three options were built before (`make clean` in between): README's way to change options
     "rebuilt": ([], []),
+    # plain `char` unsigned, as on arm / aarch64 / ppc / s390
+    "uchar": (["INCLUDES=-funsigned-char"], ["-funsigned-char"]),
 }
 
 
@@ -107,6 +109,8 @@ def build_plain(scr, kind):
     base = ["-std=gnu99", "-D_DEFAULT_SOURCE", "-D_XOPEN_SOURCE=700", "-DHAVE_LIBIDN2", "-I" + os.path.join(d, "include"), "-I" + d]
     if kind == "tsan":
         cmd = [CC, "-O1", "-g", "-fsanitize=thread"] + base + srcs + [os.path.join(VERIF, "harness/mt.c"), "-lidn2", "-lpthread"]
+    elif kind == "tsan-extra":
+        cmd = [CC, "-O1", "-g", "-fsanitize=thread", "-DEAV_EXTRA"] + base + srcs + [os.path.join(VERIF, "harness/mt.c"), "-lidn2", "-lpthread"]
     elif kind in ("tsan-idnkit", "tsan-idn"):
         # the other two back ends under ThreadSanitizer (their eav_setup / eav_free keep back-end state)
         be = kind.split("-")[1]
